@@ -281,6 +281,32 @@ func c13(c *an.Ctx) {
 					if as, ok := st.Node.(*ast.AssignStmt); ok && len(as.Rhs) == 1 && strings.Contains(f.Canon(as.Rhs[0]), ".MstVersions[p2]#0.Version") && strings.Contains(f.Canon(as.Rhs[0]), "1+") {
 						okAdv = true
 					}
+					// … or the value of a helper of the package that computes exactly that from the name it is handed
+					if as, ok := st.Node.(*ast.AssignStmt); ok && len(as.Rhs) == 1 {
+						if hc, ok := ast.Unparen(as.Rhs[0]).(*ast.CallExpr); ok {
+							if cal := an.Callee(f.Info, hc); cal != nil && cal.Pkg() == f.Pkg.Types {
+								named := false
+								for _, a := range hc.Args {
+									if f.Canon(a) == "p2" {
+										named = true
+									}
+								}
+								if src := c.P.Src(cal); named && src != nil && src.Decl.Body != nil {
+									if hf := c.P.Fn(src); hf != nil {
+										ast.Inspect(hf.Body, func(k ast.Node) bool {
+											if ha, ok := k.(*ast.AssignStmt); ok && len(ha.Rhs) == 1 {
+												cn := hf.Canon(ha.Rhs[0])
+												if regexp.MustCompile(`\.MstVersions\[p\d\]#0\.Version`).MatchString(cn) && strings.Contains(cn, "1+") {
+													okAdv = true
+												}
+											}
+											return true
+										})
+									}
+								}
+							}
+						}
+					}
 				}
 				if !okAdv {
 					r.Fail(f.Name+": version not advanced", c.P.Pos(ce.Pos()), "a re-created measurement does not take MstVersions[name].Version+1")
@@ -745,6 +771,13 @@ func c13purgeEveryIndex(c *an.Ctx) {
 	r.AddSites(purge.Len() + early.Len())
 	if purge.Len() == 0 {
 		r.Fail(f.Name+": purge", c.P.Pos(f.Body.Pos()), "DropSeries no longer removes the items of dropped series from the index parts")
+		return
+	}
+	// (a `return nil` that every path reaches through the purge is the success return, not a skip)
+	early = early.Filter("reachable without the purge", func(s an.Site) bool {
+		return f.FPath([]int{f.G.Entry}, s.V, purge.Vs(), nil) != nil
+	})
+	if early.Len() == 0 {
 		return
 	}
 	f.Guarded(r, early, "purge skipped only for lack of a tombstone table or an empty deleted set",
